@@ -107,12 +107,21 @@ def c06(tier, seed):
 
 @prop("C11")
 def c11(tier, seed):
-    return _simple_api("C11", tier, seed, "inputs",
-                       "tiny strings, random strings of every length 0..200, magic + every (mode byte pair) + random rest at "
-                       "header-edge lengths, and all structural mutants of genuine files (truncation at every length, every value "
-                       "of both mode bytes, randomised unauthenticated bytes...) through verify AND decrypt under ASan+UBSan; "
-                       "oracle: no crash/hang/report, success only if independently authentic, no output on failure, output <= body; "
-                       "distinct = (class, offset, arg, length)", 20000)
+    chk = Check("C11", tier, seed)
+    chk.assumptions = ASSUME_API
+    variants = QUICK_V if tier == "quick" else [(4, 4), (1, 1), (8, 16)]
+    c, d, s = apiprops.run_api(chk, "C11", variants)
+    extra = dict(counters=c, distinct_by_kind=d, chunk_variants=["chunk %dB / refill %dB" % (b * 16, h * 64) for b, h in variants])
+    if tier == "thorough":
+        import fuzzprops
+        extra["libfuzzer"] = fuzzprops.fuzz_c11(chk, 240)
+    return chk.finish(c.get("inputs", 0) + extra.get("libfuzzer", {}).get("executions", 0), d.get("class", 0),
+                      "tiny strings, random strings of every length 0..200, magic + every (mode byte pair) + random rest at "
+                      "header-edge lengths, and all structural mutants of genuine files (truncation at every length, every value "
+                      "of both mode bytes, randomised unauthenticated bytes...) through verify AND decrypt under ASan+UBSan; "
+                      "oracle: no crash/hang/report, success only if independently authentic, no output on failure, output <= body; "
+                      "thorough adds coverage-guided libFuzzer (16 jobs) on raw bytes and on genuine files with edited "
+                      "unauthenticated bytes; distinct = (class, offset, arg, length)", s, extra, min_evaluations=20000)
 
 
 @prop("C12")
